@@ -2,7 +2,13 @@ use crate::base::ParamKey;
 use lru::{KeyRef, LruCache};
 use std::borrow::Borrow;
 use std::hash::Hash;
+#[cfg(not(sentinel_verif))]
 use std::sync::{
+    atomic::{AtomicU64, Ordering},
+    Arc, RwLock,
+};
+#[cfg(sentinel_verif)]
+use sentinel_verif_rt::sync::{
     atomic::{AtomicU64, Ordering},
     Arc, RwLock,
 };
